@@ -45,6 +45,7 @@ def run(sc, tier, replay):
     off = ["nodirid", "nofragdirs"]
     strata = {"core": (off + ["noqueries", "oddids", "richargs"], 0.6),
               "core-faults": (off + ["noqueries"], 0.2, "faults"),
+              "core-varid": (off + ["noqueries", "varid"], 0.1),
               "abstract": (off + ["noqueries", "abstract"], 0.2)}
     return fedcheck.run_fed_check(
         sc, tier, PID, ["C06"], "model_checking",
